@@ -73,6 +73,14 @@ def count_family():
         outer = "\n".join("    var l%d = %d;" % (i, i) for i in range(200))
         inner = "\n".join("        var l%d = %d;" % (i, i) for i in range(200, n))
         out.append(("captures/%d" % n, "fn f() {\n%s\n    fn g() {\n%s\n        return || %s;\n    }\n    return g();\n}\nprint(f()());\n" % (outer, inner, uses)))
+    # bodies whose last byte is an operand: every operand value must be survivable (e.g. an operand
+    # equal to an opcode number must not be mistaken for that opcode)
+    for k in range(40, 72):
+        params = "".join(", p%d" % i for i in range(k))
+        args = ", ".join(str(i) for i in range(k))
+        out.append(("ctor-empty/%d" % k, "class W {\n    #[constructor]\n    fn new(self%s) {}\n}\nvar w = W.new(%s);\nprint(type(w));\n" % (params, args)))
+        decls = "\n".join("    var l%d = %d;" % (i, i) for i in range(k))
+        out.append(("last-local/%d" % k, "fn f() {\n%s\n    var g = || l%d;\n    l%d;\n}\nprint(f());\n" % (decls, k - 1, k - 1)))
     for n in (65530, 65540, 65543, 65544, 65545, 65546, 65547, 65550):
         body = "\n".join("%d;" % (i + 100000) for i in range(n - 8))
         out.append(("constants/%d" % n, "%s\nprint(%d);\nprint(%d + 1);\n" % (body, 100000 + n - 9, 100000)))
